@@ -189,14 +189,20 @@ class Merger(object):
     def write_channel_data(self):
         """Write channel-dependent data, and register self.channel_offsets."""
         self.channel_offsets = []
+        self.channel_index_offsets = []
         channel_probes = []
         channel_maps_l = _load_multiple_files('channel_map.npy', self.subdirs)
         # TODO if needed: channel_shanks.npy
         offset = 0
+        index_offset = 0
         for ind, array in enumerate(channel_maps_l):
             array += offset
             self.channel_offsets.append(offset)
-            offset = int(array.max())
+            self.channel_index_offsets.append(index_offset)
+            # The next probe's raw channels come after this probe's highest raw channel.
+            offset = int(array.max()) + 1
+            # Offset of this probe's block in the merged channel arrays.
+            index_offset += array.shape[0]
             channel_probes.append(array * 0 + ind)
         channel_maps = _concat(channel_maps_l, axis=0)
         channel_probes = _concat(channel_probes, axis=0)
@@ -255,7 +261,7 @@ class Merger(object):
         for fn in template_data:
             arrays = _load_multiple_files(fn, self.subdirs)
             # For ind arrays, we need to take into account the channel offset.
-            for array, offset in zip(arrays, self.channel_offsets):
+            for array, offset in zip(arrays, self.channel_index_offsets):
                 array += offset
             concat = _concat(arrays, axis=0).astype(np.uint32)
             self._save(fn, concat)
